@@ -140,10 +140,25 @@ static bool FilterVarsCollideWithTarget(const Dictionary::Ptr& filterVars, const
 	return false;
 }
 
+/**
+ * Evaluates the permission filter for a single object in a namespace of its own, so that names bound while
+ * evaluating one object (e.g. `service`) can't leak into the evaluation of the next object of the same request.
+ */
+static bool EvaluatePermissionFilter(ScriptFrame& permissionFrame, Expression *permissionFilter,
+	const Object::Ptr& target, const String& variableName)
+{
+	if (!permissionFilter)
+		return true;
+
+	permissionFrame.Self = new Namespace();
+
+	return FilterUtility::EvaluateFilter(permissionFrame, permissionFilter, target, variableName);
+}
+
 static void FilteredAddTarget(ScriptFrame& permissionFrame, Expression *permissionFilter,
 	ScriptFrame& frame, Expression *ufilter, std::vector<Value>& result, const String& variableName, const Object::Ptr& target)
 {
-	if (FilterUtility::EvaluateFilter(permissionFrame, permissionFilter, target, variableName)) {
+	if (EvaluatePermissionFilter(permissionFrame, permissionFilter, target, variableName)) {
 		if (FilterUtility::EvaluateFilter(frame, ufilter, target, variableName)) {
 			result.emplace_back(std::move(target));
 		}
@@ -252,7 +267,7 @@ std::vector<Value> FilterUtility::GetFilterTargets(const QueryDescription& qd, c
 			String name = HttpUtility::GetLastParameter(query, attr);
 			Object::Ptr target = provider->GetTargetByName(type, name);
 
-			if (!FilterUtility::EvaluateFilter(permissionFrame, permissionFilter.get(), target, variableName))
+			if (!EvaluatePermissionFilter(permissionFrame, permissionFilter.get(), target, variableName))
 				BOOST_THROW_EXCEPTION(ScriptError("Access denied to object '" + name + "' of type '" + type + "'"));
 
 			result.emplace_back(std::move(target));
@@ -268,7 +283,7 @@ std::vector<Value> FilterUtility::GetFilterTargets(const QueryDescription& qd, c
 				for (const String& name : names) {
 					Object::Ptr target = provider->GetTargetByName(type, name);
 
-					if (!FilterUtility::EvaluateFilter(permissionFrame, permissionFilter.get(), target, variableName))
+					if (!EvaluatePermissionFilter(permissionFrame, permissionFilter.get(), target, variableName))
 						BOOST_THROW_EXCEPTION(ScriptError("Access denied to object '" + name + "' of type '" + type + "'"));
 
 					result.emplace_back(std::move(target));
@@ -346,7 +361,7 @@ std::vector<Value> FilterUtility::GetFilterTargets(const QueryDescription& qd, c
 
 			if (targeted) {
 				for (auto& target : targets) {
-					if (FilterUtility::EvaluateFilter(permissionFrame, permissionFilter.get(), target, variableName)) {
+					if (EvaluatePermissionFilter(permissionFrame, permissionFilter.get(), target, variableName)) {
 						result.emplace_back(std::move(target));
 					}
 				}
